@@ -1174,6 +1174,16 @@ def gen_c15(tier, rng):
         for j, (fr, tag) in enumerate(chunk):
             ops.append(("tecmp " if j % 2 else "dec d feed ") + proto.hexs(fr))
         cases.append(Case("c15", ops, nontrivial=True, tags=tuple(sorted({t for _, t in chunk}))))
+    # ONE Decoder object, TECMP frames that repeat device id and message counter (a module counts status and data messages separately,
+    # counters wrap and restart, a replay harness keeps them constant): conversion is stateless, every frame yields its packets again
+    for dev, ctr in ((0x12, 1), (0, 0), (0xFF, 0xFFFF)):
+        pc = tecmp_can_payload(rng, 8)
+        pl = tecmp_lin_payload(rng, 4)
+        pm = tecmp_cm_payload(rng, 36)
+        frs = [tecmp_header(dev=dev, counter=ctr, mt=3, dt=2, payload=pc) + pc, tecmp_header(dev=dev, counter=ctr, mt=3, dt=2, payload=pc) + pc,
+               tecmp_header(dev=dev, counter=ctr, mt=1, dt=0, payload=pm) + pm, tecmp_header(dev=dev, counter=ctr, mt=3, dt=4, payload=pl) + pl,
+               tecmp_header(dev=dev, counter=ctr, mt=1, dt=0, payload=pm) + pm, tecmp_header(dev=dev, counter=ctr, mt=3, dt=2, payload=pc) + pc]
+        cases.append(Case("c15rep", [feed(f) for f in frs], nontrivial=True, tags=("same-decoder-repeated-counter",), meta={"noshrink": True}))
     return cases
 
 
